@@ -379,7 +379,7 @@ def _expand(prg, caller, stmt: ast.stmt, call: ast.Call, target, how: str, count
     plain = bool(body) and isinstance(body[-1], ast.Return) and body[-1].value is not None and all(
         isinstance(s, (ast.Assign, ast.AnnAssign)) and isinstance(s.targets[0] if isinstance(s, ast.Assign) else s.target, ast.Name) for s in body[:-1]
     )
-    if plain and not (how == "whole" and isinstance(stmt, (ast.Assign, ast.AnnAssign))):
+    if plain and not (how == "whole" and isinstance(stmt, (ast.Assign, ast.AnnAssign, ast.Return))):
         return None  # the interpreter substitutes such calls where they stand (Interp._inline_expression_functions)
     prologue: list[ast.stmt] = []
     for name, arg in bind.items():
@@ -397,6 +397,8 @@ def _expand(prg, caller, stmt: ast.stmt, call: ast.Call, target, how: str, count
         result_target: Optional[ast.expr] = copy.deepcopy(tgt_expr)
     elif how == "whole" and isinstance(stmt, ast.Expr):
         result_target = None
+    elif how == "whole" and isinstance(stmt, ast.Return) and plain:
+        result_target = None  # return helper(args)  ->  p = arg ...; local = ...; return <expression>
     else:
         tmp = f"__inl{k}"
         # a helper whose only exit is a final `return <name>`: that name IS the result (no temporary needed)
